@@ -93,6 +93,8 @@ def env():
         class E(db.Entity):
             j = orm.Optional(orm.Json)
             a = orm.Optional(orm.IntArray)
+            sa = orm.Optional(orm.StrArray)
+            fa = orm.Optional(orm.FloatArray)
         db.generate_mapping(create_tables=True)
         _env.update(db=db, E=E, orm=orm)
     return _env
@@ -131,8 +133,8 @@ class Session(object):
     def __init__(self, kind, doc):
         e = env()
         self.kind, self.orm, self.E, self.db = kind, e['orm'], e['E'], e['db']
-        self.attr = self.E.j if kind == 'json' else self.E.a
-        self.col = 'j' if kind == 'json' else 'a'
+        self.col = {'json': 'j', 'array': 'a', 'sarray': 'sa', 'farray': 'fa'}[kind]
+        self.attr = getattr(self.E, self.col)
         with self.orm.db_session:
             obj = self.E(**{self.col: copy.deepcopy(doc)})
             self.orm.commit()
@@ -406,3 +408,48 @@ def run_wproperty(docs, ops):
         return {'seen': seen, 'reloaded': reloaded, 'lost': seen != reloaded, 'foreign': foreign}
     finally:
         if not ok: w.cleanup()
+
+
+def typed_array_case(kind, doc, method, item):
+    """one mutator call with `item` on a typed array (kind: array / sarray / farray) -> dict(err, seen, reloaded, dirty)"""
+    s = Session(kind, doc)
+    ok = False
+    try:
+        v = s.value()
+        try:
+            if method == 'append': v.append(item)
+            elif method == 'insert': v.insert(0, item)
+            elif method == 'extend': v.extend([item])
+            elif method == 'extend_iter': v.extend(x for x in [item])
+            elif method == 'setitem': v[0] = item
+            elif method == 'iadd': operator.iadd(v, [item])
+            elif method == 'attr_iadd': setattr(s.obj, s.col, operator.iadd(getattr(s.obj, s.col), [item]))
+            else: raise AssertionError(method)
+            err = None
+        except EXPECTED_ERRORS as e:
+            err = type(e).__name__
+        seen = list(s.value()); dirty = s.dirty()
+        reloaded = s.finish(); ok = True
+        return {'err': err, 'seen': seen, 'reloaded': reloaded, 'dirty': dirty}
+    finally:
+        if not ok: s.cleanup()
+
+
+def json_wrapper_case(doc, path, m, a):
+    """obj.j = Json(doc); commit(); change the value in place; leave the session; reload -> dict(seen, reloaded, wrapper)"""
+    from pony.orm import Json
+    s = Session('json', {'init': 0})
+    ok = False
+    try:
+        s.obj.j = Json(copy.deepcopy(doc))
+        s.orm.commit()
+        v = s.value()
+        wrapper = isinstance(v, Json)
+        if wrapper: v = v.wrapped
+        apply_op(navigate(v, path), m, a)
+        v2 = s.value()
+        seen = untag(observe(None, None, v2.wrapped if isinstance(v2, Json) else v2, None))
+        reloaded = s.finish(); ok = True
+        return {'seen': seen, 'reloaded': reloaded, 'wrapper': wrapper}
+    finally:
+        if not ok: s.cleanup()
